@@ -4,6 +4,7 @@ import (
 	"context"
 	"fmt"
 	"io"
+	"strings"
 
 	"github.com/logrange/logrange/api"
 	"github.com/logrange/logrange/api/rpc"
@@ -74,7 +75,10 @@ func genBinFields(r *Rng, raw bool) []byte {
 }
 
 // kv texts for write-level and event-level fields; the last ones do not parse
-var kvPool = []string{"", "", "f=1", "host=h1,dc=x", "k=\"a,b\"", "a=b, c=d", "{e=5}", "m=", "z=\"q=r\"", "novalue", "a=b,c", "=v", "q=\"unterminated"}
+var kvPool = []string{"", "", "f=1", "host=h1,dc=x", "k=\"a,b\"", "a=b, c=d", "{e=5}", "m=", "z=\"q=r\"", "novalue", "a=b,c", "=v", "q=\"unterminated",
+	// values the printer has to quote (blank at an end, leading back quote), braces around nothing, an unbalanced brace,
+	// quoted literals that do not unquote
+	"k=\" lead\"", "k=\"trail \",j=1", "k=\"`bq\"", "{}", "  ", "{a=b", "a=`x", "a=\"x\\q\""}
 
 func genKV(r *Rng) string { return kvPool[r.Intn(len(kvPool))] }
 
@@ -254,6 +258,30 @@ func unitCase(rp UnitReplay) (*Case, error) {
 			cs.Oracle = &Violation{Class: "logevent-roundtrip", Detail: fmt.Sprintf("%+v -> %x -> %+v (%v)", *rp.Le, buf, got, err2)}
 		}
 		cs.NonTrivial = len(rp.Le.Flds) > 0 || len(rp.Le.Msg) > 127
+	case "leencshort":
+		le := toModel(*rp.Le)
+		full := make([]byte, le.WritableSize())
+		le.Marshal(full)
+		sz := int(rp.N)
+		buf := make([]byte, sz)
+		n, err := le.Marshal(buf)
+		cs.Coq = GApp("KLeEncShort", gLE(*rp.Le), GNat(sz), GBytes(buf))
+		// oracle: a buffer that is too small gets an error, and nothing but a prefix of the encoding is written into it
+		k := 0
+		for k < sz && k < len(full) && buf[k] == full[k] {
+			k++
+		}
+		rest := true
+		for _, b := range buf[k:] {
+			rest = rest && b == 0
+		}
+		switch {
+		case sz < len(full) && err == nil:
+			cs.Oracle = &Violation{Class: "logevent-marshal-short-no-error", Detail: fmt.Sprintf("%+v needs %d bytes; Marshal into %d bytes returned n=%d and no error", *rp.Le, len(full), sz, n)}
+		case !rest:
+			cs.Oracle = &Violation{Class: "logevent-marshal-short-garbage", Detail: fmt.Sprintf("%+v: Marshal into %d bytes left %x, the encoding is %x", *rp.Le, sz, buf, full)}
+		}
+		cs.NonTrivial = sz > 9
 	case "ledec":
 		le := toModel(*rp.Prev)
 		var err error
@@ -377,6 +405,10 @@ func unitCase(rp UnitReplay) (*Case, error) {
 			p := guarded(func() { res, _, err = rpc.VC01UnmarshalQueryResult(rp.Buf) })
 			if !p && err == nil && (!ok || len(res.Events) != len(evs)) {
 				cs.Oracle = &Violation{Class: "queryresult-count", Detail: fmt.Sprintf("result decoded with %d events, the event list has %d (ok=%v)", len(res.Events), len(evs), ok)}
+			}
+			// a result cut anywhere (inside the count, an event, or the request that follows the events) does not decode
+			if !p && err == nil && strings.HasPrefix(rp.Shape, "strict-prefix") && cs.Oracle == nil {
+				cs.Oracle = &Violation{Class: "queryresult-truncated-accepted", Detail: fmt.Sprintf("%d bytes, a strict prefix of an encoded result (%s), decoded without error to %d events", len(rp.Buf), rp.Shape, len(res.Events))}
 			}
 		}
 		cs.Coq = GApp("KEvsDec", GBytes(rp.Buf), obs)
@@ -638,6 +670,22 @@ func unitJobs(c *Ctx) []UnitReplay {
 		e := genLE(r, true)
 		jobs = append(jobs, UnitReplay{Kind: "leenc", Le: &e})
 	}
+	for i := 0; i < c.N(30); i++ {
+		e := genLE(r, false)
+		full := len(marshalLE(e))
+		// below the size: anywhere, and at the part boundaries (header, timestamp, inside/after the length prefixes)
+		sz := r.Intn(full)
+		switch r.Intn(4) {
+		case 0:
+			sz = r.PickInt(0, 1, 8, 9, 10, 11)
+		case 1:
+			sz = full - r.Range(1, 3)
+		}
+		if sz >= full || sz < 0 {
+			sz = full - 1
+		}
+		jobs = append(jobs, UnitReplay{Kind: "leencshort", Le: &e, N: uint64(sz)})
+	}
 	for i := 0; i < c.N(110); i++ {
 		e := genLE(r, true)
 		prev := LE{}
@@ -716,6 +764,13 @@ func unitJobs(c *Ctx) []UnitReplay {
 				enc[idx-1] += byte(r.Range(1, 3))
 				shape = "count-too-large"
 			}
+		case 6:
+			// cut inside the 4 bytes of the count: init fails
+			idx := len(enc)
+			for _, e := range evs {
+				idx -= rpc.VC01LogEventSize(toApi(e))
+			}
+			enc, shape = enc[:idx-r.Range(1, 4)], "cut-in-count"
 		default:
 			enc, shape = mangle(r, enc)
 		}
@@ -730,10 +785,37 @@ func unitJobs(c *Ctx) []UnitReplay {
 		qr := &api.QueryResult{Events: toApis(evs), NextQueryRequest: api.QueryRequest{Query: "q", Limit: 3}}
 		enc, _, _ := rpc.VC01WriteQueryResult(qr)
 		shape := "valid"
-		if r.Chance(1, 2) {
+		evsLen := 4
+		for _, e := range evs {
+			evsLen += rpc.VC01LogEventSize(toApi(e))
+		}
+		switch r.Intn(6) {
+		case 0:
+			enc, shape = enc[:r.Intn(4)], "strict-prefix:cut-in-count"
+		case 1:
+			enc, shape = enc[:evsLen+r.Intn(len(enc)-evsLen)], "strict-prefix:cut-in-next-request"
+		case 2:
+			if evsLen > 4 {
+				enc, shape = enc[:4+r.Intn(evsLen-4)], "strict-prefix:cut-in-events"
+			}
+		case 3, 4:
 			enc, shape = mangle(r, enc)
 		}
 		jobs = append(jobs, UnitReplay{Kind: "evsdec", Buf: enc, Shape: shape})
+	}
+	// one result, cut at every position of its count and of the request that follows the events
+	{
+		evs := []AE{{Ts: 5, Msg: []byte("m"), Flds: "f=1"}}
+		qr := &api.QueryResult{Events: toApis(evs), NextQueryRequest: api.QueryRequest{ReqId: 7, Query: "select", Pos: "tail", WaitTimeout: 3, Offset: -2, Limit: 10}}
+		enc, _, _ := rpc.VC01WriteQueryResult(qr)
+		evsLen := 4 + rpc.VC01LogEventSize(toApi(evs[0]))
+		for cut := 0; cut < len(enc); cut++ {
+			if cut < 4 {
+				jobs = append(jobs, UnitReplay{Kind: "evsdec", Buf: enc[:cut], Shape: "strict-prefix:cut-in-count"})
+			} else if cut >= evsLen {
+				jobs = append(jobs, UnitReplay{Kind: "evsdec", Buf: enc[:cut], Shape: "strict-prefix:cut-in-next-request"})
+			}
+		}
 	}
 	return jobs
 }
